@@ -75,6 +75,17 @@ fn one(drv: &mut Driver, rep: &mut Report, rng: &mut impl RngCore, stream: &str,
     let mut c2 = c.ctx.clone(); c2.party ^= 1 << rng.gen_range(0..16); muts.push(("ctx-party", t, s, y, base, c2));
     let mut c2 = c.ctx.clone(); c2.action.push(0); muts.push(("ctx-action-extended", t, s, y, base, c2));
     let mut c2 = c.ctx.clone(); c2.label = LABELS.iter().find(|l| **l != c.ctx.label).unwrap(); muts.push(("ctx-label", t, s, y, base, c2));
+    // a field takes the VALUE OF ANOTHER FIELD or becomes empty (a default substituted for an empty field, a field absorbed twice …)
+    for (name, c2) in [
+        ("ctx-action:=label", Ctx { action: c.ctx.label.to_vec(), ..c.ctx.clone() }),
+        ("ctx-action:=empty", Ctx { action: vec![], ..c.ctx.clone() }),
+        ("ctx-action:=sid", Ctx { action: c.ctx.sid.clone(), ..c.ctx.clone() }),
+        ("ctx-sid:=empty", Ctx { sid: vec![], ..c.ctx.clone() }),
+        ("ctx-sid:=label", Ctx { sid: c.ctx.label.to_vec(), ..c.ctx.clone() }),
+        ("ctx-sid:=action", Ctx { sid: c.ctx.action.clone(), ..c.ctx.clone() }),
+        ("ctx-party:=0", Ctx { party: 0, ..c.ctx.clone() }),
+        ("ctx-sid<->action", Ctx { sid: c.ctx.action.clone(), action: c.ctx.sid.clone(), ..c.ctx.clone() }),
+    ] { muts.push((name, t, s, y, base, c2)); }
     // context re-splittings: another (session id, party id, action) whose concatenation sid || le64(party) || action is
     // the SAME byte string — only the framing of the three fields distinguishes it from the honest context
     {
@@ -127,7 +138,7 @@ pub fn run(o: &Opts, drv: &mut Driver, rep: &mut Report) {
         let x = match k % 6 { 0 => Scalar::ZERO, 1 => Scalar::ONE, 2 => -Scalar::ONE, _ => Scalar::random(&mut rng) };
         let base = match k % 4 { 0 => ProjectivePoint::GENERATOR, _ => ProjectivePoint::GENERATOR * Scalar::random(&mut rng) };
         let sid: Vec<u8> = (0..[0usize, 1, 32, 32, 200][k as usize % 5]).map(|_| rng.gen()).collect();
-        let ctx = Ctx { sid, party: [0usize, 1, 7, 65535, 1 << 40][rng.gen_range(0..5)], action: (0..rng.gen_range(0..12)).map(|_| rng.gen()).collect(), label: LABELS[rng.gen_range(0..3)] };
+        let ctx = Ctx { sid, party: [0usize, 1, 7, 65535, 1 << 40][rng.gen_range(0..5)], action: if rng.gen_range(0..4) == 0 { vec![] } else { (0..rng.gen_range(0..12)).map(|_| rng.gen()).collect() }, label: LABELS[rng.gen_range(0..3)] };
         let mut tape = vec![0u8; 160]; rng.fill_bytes(&mut tape);
         if k % 7 == 3 { for b in tape[..32].iter_mut() { *b = 0xff; } }          // first draw is >= q: rejection sampling retries
         if k % 11 == 5 { for b in tape[..32].iter_mut() { *b = 0; } }            // nonce r = 0
